@@ -203,6 +203,7 @@ pub fn replay(v: &Value) {
         "txgrid-c05" => crate::c05::replay(v),
         "txgrid-c07" => crate::c07::replay(v),
         "txgrid-c08" => crate::c08::replay(v),
+        "txgrid-c09" => crate::c09::replay(v),
         #[cfg(vls_verif)]
         "concur" => crate::concur::replay(v),
         _ => {
